@@ -65,6 +65,21 @@ pub enum Case {
         in_xz: bool,
         sink_max: usize,
     },
+    /// A reference through rep0 right after an end marker, which leaves
+    /// rep0 = 2^32-1 (distance 2^32, larger than any dictionary): either a second
+    /// payload given to the same raw decoder object without reset, encoded
+    /// against the carried-over model and starting with a literal (decoded in
+    /// matched mode against the rep0 byte), a short rep or a rep0 match
+    /// (`bad` = Some), or zero bytes written to a `Stream` after the marker
+    /// (they decode as a matched literal; `bad` = None).
+    AfterMarker {
+        props: Props,
+        dict: u32,
+        prefix: Vec<Op>,
+        bad: Option<Op>,
+        tail: Vec<u8>,
+        zeros: usize,
+    },
 }
 
 #[derive(Clone, Debug)]
@@ -84,6 +99,7 @@ pub struct Abs {
     l2: Option<(Vec<AbsChunk>, u8, bool)>,
     stale: bool,
     sink_max: usize,
+    after_marker: bool,
 }
 
 pub struct C09;
@@ -216,10 +232,10 @@ impl Property for C09 {
                 3 => Just(None),
                 2 => (abs_chunks(4, 12, 10, false), 0u8..4, any::<bool>()).prop_map(Some),
             ],
-            (prop::bool::weighted(0.12), prop_oneof![3 => Just(0usize), 1 => 1usize..9]),
+            (prop::bool::weighted(0.12), prop_oneof![3 => Just(0usize), 1 => 1usize..9], prop::bool::weighted(0.04)),
         )
             .prop_map(
-                |((props, (container, dict), prog, cut_sel, cut_class), (bad_kind, bad_sel, len_class, tail, with_size), l2, (stale, sink_max))| Abs {
+                |((props, (container, dict), prog, cut_sel, cut_class), (bad_kind, bad_sel, len_class, tail, with_size), l2, (stale, sink_max, after_marker))| Abs {
                     props,
                     dict,
                     container,
@@ -234,11 +250,42 @@ impl Property for C09 {
                     l2,
                     stale,
                     sink_max,
+                    after_marker,
                 },
             )
             .boxed()
     }
     fn concretize(&self, a: &Abs) -> Case {
+        if a.after_marker {
+            let stream = a.container == Container::Stream || a.container == Container::Header13;
+            let eff = if stream { (a.dict as u64).max(4096) } else { a.dict as u64 };
+            let ops = concretize(
+                &a.prog,
+                ConcCfg {
+                    dict: eff,
+                    max_out: 20_000,
+                    max_ops: 300,
+                },
+            );
+            let cut = pick(a.cut_sel, 0, ops.len() as u64) as usize;
+            let bad = if stream {
+                None
+            } else {
+                Some(match a.bad_kind % 3 {
+                    0 => Op::Lit(a.bad_sel as u8),
+                    1 => Op::ShortRep,
+                    _ => Op::Rep { idx: 0, len: len_of(a.len_class, a.bad_sel) },
+                })
+            };
+            return Case::AfterMarker {
+                props: a.props,
+                dict: a.dict,
+                prefix: ops[..cut].to_vec(),
+                bad,
+                tail: a.tail.clone(),
+                zeros: 1 + (a.bad_sel as usize % 24),
+            };
+        }
         if let Some((chunks, reset, in_xz)) = &a.l2 {
             let before = concretize_chunks(
                 chunks,
@@ -370,7 +417,7 @@ impl Property for C09 {
         }
     }
     fn rule(&self) -> String {
-        "proptest generates a valid symbol program, cuts it at a position chosen by class relative to the circular window's wrap point (nothing produced yet / before the first wrap / cursor == 0 / cursor == dict-1 / after >= 2 laps / produced > dict), appends ONE copy op whose distance is out of the window (produced+1, produced+k, dict+1 or any value in (dict, produced] when more than a window has been produced, 2^32-1, powers of two above the output, any rep or short rep as first symbol) and a few literals; encoded by the reference encoder and fed to raw::LzmaDecoder (dictionary sizes 1..=4095 and larger), lzma_decompress (13-byte header), Stream, and as the last chunk of a generated LZMA2 chunk sequence (accumulating window; distances reaching behind the last dictionary reset), also wrapped in .xz. Oracle: the decoder returns Err and what reached the sink is a prefix of the interpreter's output for the valid part. Non-trivial = something valid precedes the bad copy; distinct = SipHash of the concrete case.".into()
+        "proptest generates a valid symbol program, cuts it at a position chosen by class relative to the circular window's wrap point (nothing produced yet / before the first wrap / cursor == 0 / cursor == dict-1 / after >= 2 laps / produced > dict), appends ONE copy op whose distance is out of the window (produced+1, produced+k, dict+1 or any value in (dict, produced] when more than a window has been produced, 2^32-1, powers of two above the output, any rep or short rep as first symbol) and a few literals; encoded by the reference encoder and fed to raw::LzmaDecoder (dictionary sizes 1..=4095 and larger), lzma_decompress (13-byte header), Stream, and as the last chunk of a generated LZMA2 chunk sequence (accumulating window; distances reaching behind the last dictionary reset), also wrapped in .xz; plus references through rep0 right after an end marker (rep0 = 2^32-1): a second payload for the same raw decoder object without reset that starts with a literal / short rep / rep0 match, and zero bytes written to a Stream after the marker. Oracle: the decoder returns Err and what reached the sink is a prefix of the interpreter's output for the valid part. Non-trivial = something valid precedes the bad copy; distinct = SipHash of the concrete case.".into()
     }
     fn required_classes(&self, tier: Tier) -> Vec<(&'static str, u64)> {
         let m = tier.pick(1, 10);
@@ -390,11 +437,101 @@ impl Property for C09 {
             ("bad:matched literal with rep0 behind a dictionary reset", 1000 * m),
             ("sink:short writes", 1000 * m),
             ("pos:more than 64 KiB produced, before the first wrap", 200 * m),
+            ("bad:rep0 reference after an end marker (raw decoder continued)", 1000 * m),
+            ("bad:bytes written to a Stream after the end marker", 1000 * m),
         ]
     }
 
     fn judge(&self, c: &mut Case, st: &mut LocalStats) -> Judgement {
         match c {
+            Case::AfterMarker { props, dict, prefix, bad, tail, zeros } => {
+                let stream = bad.is_none();
+                let eff = if stream { (*dict as u64).max(4096) } else { *dict as u64 };
+                let valid_out = match interpret(prefix, eff) {
+                    Ok(o) => o,
+                    Err(e) => return Judgement::HarnessBug(format!("prefix invalid: {:?}", e)),
+                };
+                // first stream: prefix + end marker
+                let mut enc = crate::refmodel::enc::SymEncoder::new(*props);
+                let mut rc = crate::refmodel::enc::RcEnc::new();
+                for op in prefix.iter() {
+                    enc.encode(&mut rc, op);
+                }
+                enc.encode_marker(&mut rc, 2);
+                let first = rc.finish();
+                st.eval();
+                st.nontrivial(&(props.byte(), *dict, &*prefix, *bad, &*tail, *zeros));
+                if let Some(bad) = bad {
+                    st.class("window:circular/raw");
+                    st.class("bad:rep0 reference after an end marker (raw decoder continued)");
+                    // second payload against the carried-over model; the decoder starts a new window
+                    enc.reset_dict();
+                    let mut rc2 = crate::refmodel::enc::RcEnc::new();
+                    enc.encode(&mut rc2, bad);
+                    for b in tail.iter() {
+                        enc.encode(&mut rc2, &Op::Lit(*b));
+                    }
+                    enc.encode_marker(&mut rc2, 2);
+                    let second = rc2.finish();
+                    st.sample("after marker / raw decoder continued", || {
+                        json!({"props": props, "dict": dict, "first_program": program_text(prefix, 12), "then_without_reset": bad.short(), "second_payload": hex_prefix(&second, 24)})
+                    });
+                    let (first_ok, first_out, r) = sut::raw_lzma_continue(*props, *dict, &first, &second, &Io::default());
+                    if !first_ok || first_out != valid_out {
+                        st.class("after marker: first stream not decoded (left to C01)");
+                        return Judgement::Pass;
+                    }
+                    let what = format!(
+                        "props={:?} dict={} raw decoder: [{}] + end marker decoded, then (no reset) a payload starting with {} : rep0 is 2^32-1 after the marker, so this refers to distance 2^32",
+                        props,
+                        dict,
+                        program_text(prefix, 20),
+                        bad.short()
+                    );
+                    if r.verdict.is_ok() {
+                        return Judgement::violation("accepted:rep0-after-marker", format!("out-of-window reference accepted: {} ; output {} bytes", what, r.out.len()));
+                    }
+                    if let sut::Verdict::Panic(p) = &r.verdict {
+                        return Judgement::violation(format!("panic:{}", sut::panic_site(p)), format!("{} ; {}", what, p));
+                    }
+                    if !r.out.is_empty() {
+                        return Judgement::violation("fabricated-bytes", format!("rejected, but the sink received {} bytes: {}", r.out.len(), what));
+                    }
+                } else {
+                    st.class("window:circular/stream");
+                    st.class("bad:bytes written to a Stream after the end marker");
+                    let mut f = lzma_header(*props, *dict, None);
+                    f.extend_from_slice(&first);
+                    let n = f.len();
+                    f.extend(std::iter::repeat(0u8).take(*zeros));
+                    st.sample("after marker / stream continued", || {
+                        json!({"props": props, "dict": dict, "program": program_text(prefix, 12), "zero_bytes_after_marker": zeros})
+                    });
+                    let pieces: Vec<usize> = if tail.len() % 2 == 0 { vec![n, *zeros] } else { std::iter::repeat(1).take(f.len()).collect() };
+                    let r = sut::stream_chunked(&f, &Opts::with(USize::ReadFromHeader), &pieces);
+                    let what = format!(
+                        "props={:?} dict={} Stream: complete stream [{}] + end marker ({} bytes), then {} zero bytes in further write calls (they decode as a literal in matched mode against rep0 = 2^32-1)",
+                        props,
+                        dict,
+                        program_text(prefix, 20),
+                        n,
+                        zeros
+                    );
+                    if let sut::Verdict::Panic(p) = &r.verdict {
+                        return Judgement::violation(format!("panic:{}", sut::panic_site(p)), format!("{} ; {}", what, p));
+                    }
+                    if r.out.len() > valid_out.len() || r.out[..] != valid_out[..r.out.len()] {
+                        return Judgement::violation(
+                            "fabricated-bytes",
+                            format!("the sink received bytes beyond the stream's output ({} instead of {}): {}", r.out.len(), valid_out.len(), what),
+                        );
+                    }
+                    if r.verdict.is_ok() && r.refused_at.is_none() {
+                        return Judgement::violation("accepted:rep0-after-marker", format!("out-of-window reference accepted: {}", what));
+                    }
+                }
+                Judgement::Pass
+            }
             Case::Lzma { props, dict, container, prefix, bad, tail, with_size } => {
                 let eff = match container {
                     Container::Raw => *dict as u64,
